@@ -3,7 +3,8 @@ from rules import c05, lib_coro, lib_core, lib_head, lib_ready
 
 
 def run(ctx):
-    fbs = ctx.facts(['K20', 'K20n', 'KF'], kinds=('probe', 'lib'), only=r'p_coro\.cpp$|src/algo|src/exe|src/lazy', tests=r'/test/')
+    fbs = ctx.facts(['K20', 'K20n', 'KF'], kinds=('probe', 'lib'), only=r'p_coro\.cpp$|src/algo|src/exe|src/lazy', tests=r'/test/',
+                    quick_tests=r'unit/coro/(await|on|future_coro_traits)\.cpp')
     rr = ctx.rule('R-READY', 'await_ready is false unless the awaited result can be read', minimum=6)
     rs = ctx.rule('R-SUSPEND', 'bool await_suspend == registration outcome', minimum=10)
     rh = ctx.rule('R-HANDOFF', 'no awaiter field is touched after the coroutine may have been handed off', minimum=30)
@@ -16,6 +17,8 @@ def run(ctx):
     rhd = ctx.rule('R-HEAD', 'a co_awaited Task of any head kind can be started', minimum=10)
     rnr = ctx.rule('R-NODEREUSE', 'an object registered on a shared core is registered once and its next field is not '
                    'used for anything else', minimum=4)
+    rre = ctx.rule('R-RESUME.executor', 'a coroutine resumed inline takes the resuming core\'s executor (every kind, every '
+                   'path)', minimum=4)
     rl = ctx.rule('R-LOOPCALLER', 'Here() of a callback object that is not a BaseCore returns nullptr on every path (the '
                   'Loop would call the returned core with that object as its caller)', minimum=15)
     for cfg, fb in sorted(fbs.items()):
@@ -35,6 +38,8 @@ def run(ctx):
             lib_coro.check_here_next(ctx, fb, rn)
         lib_coro.check_destroy(ctx, fb, rd)
         c05.check_awaiters(ctx, fb, ra)
+        if c05.check_resume_executor(ctx, fb, rre) < 2:
+            ctx.broken('PromiseType::Impl not instantiated in %s' % cfg)
         lib_core.check_publish(ctx, fb, rp)
         lib_head.check(ctx, fb, cfg, rhd, None)
         lib_core.check_node_reuse(ctx, fb, rnr)
